@@ -12,6 +12,7 @@ import (
 	"sync"
 	"time"
 
+	"github.com/invopop/gobl/dsig"
 	"github.com/invopop/gobl/internal/cli"
 )
 
@@ -47,6 +48,7 @@ type bulkStream struct {
 	ctx       context.Context
 	cancel    context.CancelFunc
 	cancelled bool // the caller's context was cancelled while the stream was open
+	defKey    int  // pool index of the stream's default signing key, -1 for none
 }
 
 func init() {
@@ -79,7 +81,7 @@ func init() {
 	})
 }
 
-var bulkActions = []string{"build", "build", "sign", "verify", "validate", "correct", "replicate", "ping", "sleep", "schemas", "schema", "regime", "keygen", "unknown"}
+var bulkActions = []string{"build", "build", "sign", "verify", "validate", "correct", "replicate", "ping", "sleep", "schemas", "schema", "regime", "keygen", "unknown", "no-action"}
 
 // planBulk generates a bulk plan; malformed=true mixes in damaged requests (C14).
 func planBulk(c *Ctx, run int64, prop string, malformed bool) *Plan {
@@ -135,6 +137,12 @@ func planBulk(c *Ctx, run int64, prop string, malformed bool) *Plan {
 		}
 	}
 	p.Knobs["w:cancel"] = Pick(r, []int64{1, 1, 2, 6})
+	// a stream of a process started without a signing key: only requests that bring their own can be signed
+	for s := 0; s < nstreams; s++ {
+		if Chance(r, 0.25) {
+			p.Knobs[fmt.Sprintf("nokey%d", s)] = 1
+		}
+	}
 	return p
 }
 
@@ -241,6 +249,9 @@ func (x *X) buildRequest(op Op, n int) bulkReq {
 		rq.Payload = map[string]any{"code": []string{"es", "PT", "mx", "zz"}[n%4]}
 	case "unknown":
 		rq.Action = "frobnicate"
+	case "no-action":
+		// a request that names no action at all still takes a position and must be answered
+		rq.Action = ""
 	}
 	switch op.S3 {
 	case "payload-null":
@@ -338,7 +349,11 @@ func standalone(rq *bulkReq, defKey int) string {
 		}
 	}
 	var first *cli.BulkResponse
-	for res := range cli.Bulk(context.Background(), &cli.BulkOptions{In: bytes.NewReader(rq.line()), DefaultPrivateKey: PrivKey(defKey)}) {
+	var dk *dsig.PrivateKey
+	if defKey >= 0 {
+		dk = PrivKey(defKey)
+	}
+	for res := range cli.Bulk(context.Background(), &cli.BulkOptions{In: bytes.NewReader(rq.line()), DefaultPrivateKey: dk}) {
 		if !res.IsFinal && first == nil {
 			first = res
 		}
@@ -509,6 +524,11 @@ func execBulk(x *X) {
 		name := fmt.Sprintf("s%d/in", st.idx)
 		st.rd.Gate = func(r *SimReader) { sch.Yield(name, "delivery", "read", 0) }
 		st.opts = &cli.BulkOptions{In: st.rd, DefaultPrivateKey: PrivKey(0)}
+		if st.style != "http" && x.P.Knob(fmt.Sprintf("nokey%d", st.idx), 0) == 1 {
+			st.defKey = -1
+			st.opts.DefaultPrivateKey = nil
+			x.Probe("stream-without-default-key")
+		}
 		byOpts[st.opts] = st
 		per := 512
 		if chunk > 0 {
@@ -572,8 +592,8 @@ func execBulk(x *X) {
 			if int(seq) >= 1 && int(seq) <= len(st.reqs) {
 				rq := &st.reqs[seq-1]
 				// the oracle: the same request executed alone at this very instant
-				st.expect[seq] = standalone(rq, 0)
-				if d := standaloneDirect(rq, 0); d != "" && d != st.expect[seq] {
+				st.expect[seq] = standalone(rq, st.defKey)
+				if d := standaloneDirect(rq, st.defKey); d != "" && d != st.expect[seq] {
 					x.Violate("bulk-differs-from-cli-function:"+rq.Action, "stream %d request %d (%s): a one-request bulk stream and the internal/cli function called directly disagree\n  bulk %s\n  cli  %s", si, seq, rq.Action, trunc(st.expect[seq], 300), trunc(d, 300))
 				}
 				x.Entropy(int(seq) + 1000*si)
@@ -825,7 +845,7 @@ func (x *X) checkStream(st *bulkStream) {
 		// a signature produced inside a stream must be by the key the request named, else by the stream's default key
 		if rq.Action == "sign" && !r.hasError() {
 			if env, err := ParseEnv(r.Payload); err == nil && len(env.Signatures) > 0 {
-				want := 0
+				want := st.defKey
 				if pl, ok := rq.Payload.(map[string]any); ok {
 					if raw, ok := pl["privatekey"].(json.RawMessage); ok {
 						for i := range keyJWK {
@@ -835,7 +855,9 @@ func (x *X) checkStream(st *bulkStream) {
 						}
 					}
 				}
-				if err := env.Verify(PubKey(want)); err != nil {
+				if want < 0 {
+					x.Violate("sign-without-any-key", "%s: request %d (sign) named no key and the stream has none, yet a signed envelope came back", where, r.SeqID)
+				} else if err := env.Verify(PubKey(want)); err != nil {
 					x.Violate("sign-wrong-key", "%s: request %d (sign) was to be signed by pool key %d but the returned envelope does not verify with it: %v", where, r.SeqID, want, err)
 				}
 			}
